@@ -124,7 +124,7 @@ def gen_scen(rng, prim=None):
     k = rng.choice([1, 2, 2, 3])                      # worker threads; 2..4 threads in total
     rets = [rng.choice([0, 1, 7, 2147483648, 4294967295, rng.randrange(2 ** 32)]) for _ in range(k + 1)]
     workers = [gen_body(rng, prim, 8) for _ in range(k)]
-    main = [f"start-{j}" for j in range(1, k + 1)]
+    main = [f"{rng.choice(['start', 'mstart'])}-{j}" for j in range(1, k + 1)]
     if prim != "thr" and rng.random() < 0.5:
         main += gen_body(rng, prim, 4)
     joins = [f"join-{j}" for j in range(1, k + 1)]
@@ -134,7 +134,8 @@ def gen_scen(rng, prim=None):
         j = rng.randrange(1, k + 1)
         extra = rng.choice(["start", "join", "join0"])
         if extra == "start":
-            main.insert(main.index(f"start-{j}") + 1, f"start-{j}")
+            at = [i for i, o in enumerate(main) if o in (f"start-{j}", f"mstart-{j}")][0]
+            main.insert(at + 1, f"start-{j}")
         elif extra == "join":
             main.append(f"join-{j}")
         else:
@@ -196,7 +197,8 @@ class Call:
 
 
 def split_op(o):
-    return (o.split("-")[0], int(o.split("-")[1])) if "-" in o else (o, None)
+    name, arg = (o.split("-")[0], int(o.split("-")[1])) if "-" in o else (o, None)
+    return ("start" if name == "mstart" else name), arg
 
 
 def contracts(sc, tr):
@@ -473,13 +475,16 @@ class Explorer:
         self.runs += sum(len(h) - 1 for h in histories)
         return {id(h): self.captured.get(id(h), []) for h in histories}
 
-    def exhaustive(self, scens, depth, cap, batch=60):
-        """returns per scenario (runs, complete?)"""
+    def exhaustive(self, scens, depth, cap, batch=60, max_dev=None):
+        """returns per scenario (runs, complete?).  With max_dev only choice sequences with at most that many deviations
+        from the default policy are run (wave k = k deviations), at any depth < `depth`."""
         rng = self.ctx.rng
         pending = {i: [()] for i in range(len(scens))}
         total = {i: 0 for i in range(len(scens))}
         complete = {i: True for i in range(len(scens))}
-        while pending:
+        wave = 0
+        while pending and (max_dev is None or wave <= max_dev):
+            wave += 1
             hs, index = [], []
             for i, prefs in pending.items():
                 for k in range(0, len(prefs), batch):
@@ -539,7 +544,7 @@ def stress(ctx):
         return
     try:
         n = 2000 if ctx.tier == "quick" else 40000
-        rc, out = C.sh([str(exe), str(n)], timeout=300, env={"ASAN_OPTIONS": "detect_leaks=0:exitcode=86", "UBSAN_OPTIONS": C.SAN_ENV["UBSAN_OPTIONS"]})
+        rc, out = C.sh([str(exe), str(n)], timeout=150, env={"ASAN_OPTIONS": "detect_leaks=0:exitcode=86", "UBSAN_OPTIONS": C.SAN_ENV["UBSAN_OPTIONS"]})
         ok = rc == 0 and "ok all" in out
         ctx.cov["stress_test_real_pthreads"] = {"iterations": n, "result": "ok" if ok else "FAILED", "lines": out.strip().splitlines()[-6:]}
         ctx.log(f"stress test on real pthreads ({n} iterations): {'ok' if ok else 'FAILED'}")
@@ -565,6 +570,7 @@ FIXED_SCENARIOS = [
     "scen mon 0 5 0 1000000 1 0 T:0:start-1,start-2,start-3,join-1,join-2,join-3 T:1:lock,wait,unlock T:2:lock,twait-2,unlock T:3:set",
     "scen sem 1 5 999999999 1000000 0 1 T:0:start-1,start-2,join-1,join-2 T:1:wait,twait-1 T:2:signal,trywait",
     "scen thr 0 0 0 1 0 0 T:0:join-1,start-1,start-1,join-1,join-1 T:4294967295:",
+    "scen thr 0 0 0 1 0 0 T:7:mstart-1,mstart-1,join-1,join-1 T:2147483648:mstart-2,join-2 T:3:",
     "scen sig 0 5 0 1 1 0 T:0:start-1,wait,destroy,join-1 T:1:set",
 ]
 
@@ -577,7 +583,7 @@ def check(ctx):
         "waiter does not consume a signal, counting semaphore with EINTR, pthread_create succeeds, join yields the function's result",
         "monotone virtual clock: no CLOCK_REALTIME jumps; time-outs are non-negative; no overflow of time_t/long; sem_timedwait never reports ENOSYS",
         "one atomic step = one POSIX call + the library code up to the next POSIX call (the `signaled` flags are only accessed under the internal mutex)",
-        "clients respect the API preconditions: unlock / Monitor::wait only by the lock holder, a Thread object is not restarted after join",
+        "clients respect the API preconditions: unlock / Monitor::wait only by the lock holder, a Thread object is used by one thread at a time and is not restarted after join",
     ]
     proof_ok = C.proof_stage(ctx, PROPS, [DRIVER], leanchecker=(ctx.tier == "thorough"))
     harness = build(ctx)
@@ -601,6 +607,13 @@ def check(ctx):
         ncomplete = sum(1 for i in complete if complete[i])
         ctx.log(f"exhaustive depth {depth}: {sum(total.values())} runs over {len(scens)} scenarios ({ncomplete} enumerated completely), "
                 f"{len(ex.diffs)} disagreement(s)")
+        # 2b. bounded deviation at ANY depth: all schedules that leave the default policy at most `ndev` times
+        ndev = 2 if quick else 3
+        dcap = 1500 if quick else 20000
+        dtotal, dcomplete = ex.exhaustive(scens, 10 ** 6, dcap, max_dev=ndev)
+        ndcomplete = sum(1 for i in dcomplete if dcomplete[i])
+        ctx.log(f"<= {ndev} deviations at any depth: {sum(dtotal.values())} runs ({ndcomplete} scenarios enumerated completely), "
+                f"{len(ex.diffs)} disagreement(s)")
         # 3. random schedules over more scenarios
         rscens = scens + [gen_scen(ctx.rng) for _ in range(60 if quick else 400)]
         before = ex.runs
@@ -621,9 +634,11 @@ def check(ctx):
         ctx.cov["exhaustive"] = False
         ctx.cov["exhaustive_scope"] = (f"all choice sequences (threads x alternatives incl. spurious wake-up, EINTR, time-out, clock tick) of the first "
                                        f"{depth} scheduling points, default policy afterwards: {sum(total.values())} runs over {len(scens)} scenarios; "
-                                       f"{ncomplete} scenarios enumerated completely, {len(scens) - ncomplete} capped at {cap} runs (sampled)")
+                                       f"{ncomplete} scenarios enumerated completely, {len(scens) - ncomplete} capped at {cap} runs (sampled); "
+                                       f"plus all schedules with <= {ndev} deviations from the default policy at any depth: {sum(dtotal.values())} runs, "
+                                       f"{ndcomplete} scenarios completely, the others capped at {dcap}")
         ctx.cov["rule"] = (f"corpus ({len(corpus)}) + {len(FIXED_SCENARIOS)} fixed + {len(scens) - len(FIXED_SCENARIOS)} generated scenarios (2-4 threads, one primitive, "
-                           f"well-formed programs) x exhaustive schedules of the first {depth} points (cap {cap}/scenario) + {len(rscens)} scenarios x "
+                           f"well-formed programs) x exhaustive schedules of the first {depth} points (cap {cap}/scenario) and all schedules with <= {ndev} deviations from the default policy at any depth (cap {dcap}) + {len(rscens)} scenarios x "
                            f"{60 if quick else 300} uniformly random schedules (xorshift64, all candidates); every run = one forked process of the real sources "
                            "over the simulated POSIX layer, replayed on the Lean model; distinct_nontrivial = distinct (scenario, per-step return events, verdict) "
                            "among runs in which at least two threads took steps")
